@@ -160,7 +160,7 @@ func BuildIndex(outfile string, idx oci.SignedImageIndex, tags []string) (name.D
 		}
 	}
 
-	f, err := os.OpenFile(outfile, os.O_CREATE|os.O_RDWR, 0o644)
+	f, err := os.OpenFile(outfile, os.O_CREATE|os.O_RDWR|os.O_TRUNC, 0o644)
 	if err != nil {
 		return name.Digest{}, fmt.Errorf("failed to open outfile %s: %w", outfile, err)
 	}
